@@ -102,6 +102,23 @@ class Fold(ast.NodeTransformer):
                 return n.value.elts[i]
         return n
 
+    def visit_Compare(self, n):
+        n = self.generic_visit(n)
+        r = self.nz.fold_test(n)
+        if isinstance(r, bool):
+            return ast.copy_location(ast.Constant(value=r), n)
+        return n
+
+    def visit_BoolOp(self, n):
+        n = self.generic_visit(n)
+        if any(isinstance(v, ast.Constant) for v in n.values):
+            r = self.nz.fold_test(n)
+            if isinstance(r, bool):
+                return ast.copy_location(ast.Constant(value=r), n)
+            if isinstance(r, ast.AST):
+                return r
+        return n
+
     def visit_IfExp(self, n):
         n = self.generic_visit(n)
         t = self.nz.fold_test(n.test)
